@@ -405,6 +405,9 @@ func scriptedHandler(name string, reg *Registry, closeOf func(w http.ResponseWri
 			case <-rel:
 			case <-req.Context().Done():
 			}
+			if req.ProtoMajor == 2 { // a multiplexed connection carries other exchanges: give up this stream only
+				panic(http.ErrAbortHandler)
+			}
 			closeConn()
 		case b == "gate": // wait for the driver, then answer 200
 			select {
@@ -412,6 +415,12 @@ func scriptedHandler(name string, reg *Registry, closeOf func(w http.ResponseWri
 				reply(200, a.Token)
 			case <-req.Context().Done():
 			}
+		case b == "gatereset": // wait for the driver, then abort this exchange only (HTTP/2: RST_STREAM; HTTP/1: the connection)
+			select {
+			case <-rel:
+			case <-req.Context().Done():
+			}
+			panic(http.ErrAbortHandler)
 		case b == "gateclose": // wait for the driver, then close the connection
 			select {
 			case <-rel:
@@ -438,7 +447,7 @@ func scriptedHandler(name string, reg *Registry, closeOf func(w http.ResponseWri
 }
 
 // HTTPUpstream is a scripted HTTP/1.1 server. The request header X-Script holds comma separated behaviours, one
-// per attempt (the last one repeats): ok | sNNN | close | hang | slowN | gate | gateclose | big<N>
+// per attempt (the last one repeats): ok | sNNN | close | hang | slowN | gate | gateclose | gatereset | big<N>
 type HTTPUpstream struct {
 	Name  string
 	Addr  string
